@@ -48,6 +48,10 @@ func genC18(h *H) {
 				}
 				h.tag("rngfault-transient:" + kind)
 				h.Run(Case{Op: "rng_transient", A: map[string]string{"kind": kind, "v": v, "n": fmt.Sprint(nr), "seed": hx(h.rng.Bytes(8)), "oneshot": fmt.Sprint(nr % 2)}})
+				if nr >= 3 {
+					h.tag("rngfault-transient-resample:" + kind)
+					h.Run(Case{Op: "rng_transient", A: map[string]string{"kind": kind, "v": v, "n": fmt.Sprint(nr), "seed": hx(h.rng.Bytes(8)), "oneshot": fmt.Sprint(nr % 2), "reject": "1"}})
+				}
 			}
 		}
 	}
@@ -76,6 +80,12 @@ func init() {
 			rpk = append(rpk, boxPk(r.Bytes(32)))
 		}
 		stream := r.Bytes(4096)
+		if c.A["reject"] == "1" {
+			// source values the bounded draw rejects (low = v*n mod 2^32 below 2^32 mod n), so that the
+			// re-sampling reads exist and get their fault too
+			copy(stream[0:4], []byte{0, 0, 0, 0})
+			copy(stream[8:12], []byte{0, 0, 0, 0})
+		}
 		msg := []byte("fail closed")
 		run := func() (out []byte, err error) {
 			switch c.A["kind"] {
